@@ -219,7 +219,7 @@ protected:
             long int nbChildren = 1;
 
             children.emplace_back(locals[idxLevel+1]);
-            positionsOfChildren[nbChildren] = (0);
+            positionsOfChildren[0] = (0);
 
             kernel.L2L(inTree.getCellGroupsAtLevelTarget(0).front().getCellSymbData(0),
                          idxLevel, TbfUtils::make_const(locals[idxLevel]), children,
